@@ -596,6 +596,15 @@ namespace bloch::runtime {
         m_gcCv.notify_all();
         if (m_gcThread.joinable())
             m_gcThread.join();
+        // Objects that are still referenced (scopes left behind by a runtime error, static
+        // storage, the last return value) are freed through a deleter that calls back into this
+        // evaluator. Release them here, while every member is still alive, instead of during
+        // member destruction. User destructors are not run at this point: the program has
+        // already finished or failed and its output has been flushed or discarded.
+        m_tearingDown = true;
+        m_returnValue = {};
+        m_env.clear();
+        for (auto& kv : m_classTable) kv.second->staticStorage.clear();
     }
 
     Value RuntimeEvaluator::lookup(const std::string& name) {
@@ -2354,7 +2363,8 @@ namespace bloch::runtime {
                                  "cannot instantiate static or abstract class '" + cls->name + "'");
             }
             auto deleter = [this](Object* obj) {
-                destroyObject(obj, !obj->skipDestructor);
+                if (!m_tearingDown)
+                    destroyObject(obj, !obj->skipDestructor);
                 delete obj;
             };
             auto obj = std::shared_ptr<Object>(new Object{}, deleter);
